@@ -6,6 +6,7 @@
     Only statements, closed by [exact], and their assumptions. *)
 From Coq Require Import List ZArith NArith Ascii Bool Permutation.
 From RV Require Import Base.Decimal Model.Bencode Base.HashSpec Model.ValueHash Proofs.ValueHashFacts.
+From RV Require Import Model.ProxyDispatch Proofs.ProxyDispatchFacts.
 Import ListNotations.
 Open Scope list_scope.
 
@@ -75,6 +76,22 @@ Theorem C16_fixed_preserves_setfree :
   forall sorted_fn v, setfree v = true -> get_hash sorted_fn fixed v = get_hash sorted_fn shipped v.
 Proof. exact get_hash_fixed_setfree. Qed.
 
+(** ** Which proxy hashes a value (TypeRegistry._get_proxy_type, Model/ProxyDispatch.v).
+    With the full-MRO search of the shipped code the proxy chosen for a class does not depend
+    on which classes were looked up (and memoised) earlier in the process: any registry, any
+    history, any class depth. *)
+Theorem C16_dispatch_history_independent :
+  forall r0 hist c, dispatch FullMRO r0 hist c = dispatch FullMRO r0 [] c.
+Proof. exact dispatch_full_history_independent. Qed.
+
+(** Searching only the class and its direct bases is refuted: a class two levels below
+    [set] is hashed by plain ProxyValue (pickle in iteration order) in a fresh process and
+    by Set once its parent class was looked up. *)
+Theorem C16_dispatch_bases_only_refuted :
+  exists hist c, dispatch BasesOnly reg0 hist c <> dispatch BasesOnly reg0 [] c /\
+                 dispatch BasesOnly reg0 [] c <> dispatch FullMRO reg0 [] c.
+Proof. exists [c_tagset], c_sampletags. split; vm_compute; discriminate. Qed.
+
 (** Non-vacuity: two different concrete objects (set containing a tuple containing a
     frozenset, dict with a frozenset value) that are the same value; the repaired code
     gives both one proper pre-image, the shipped code two different results. *)
@@ -95,3 +112,5 @@ Print Assumptions C16_order_independent_fixed.
 Print Assumptions C16_digest_fixed.
 Print Assumptions C16_fixed_preserves_setfree.
 Print Assumptions C16_nonvacuous.
+Print Assumptions C16_dispatch_history_independent.
+Print Assumptions C16_dispatch_bases_only_refuted.
